@@ -48,13 +48,16 @@ func verifC08Merkle(N int) {
 	stub := verifStub(func(int) string { return "M" }, func(int, []byte, []byte) bool { return true })
 	lg := &Ledger{xlog: vlog.Nop{}, cryptoClient: stub}
 
-	hdr := func(txs []*pb.Transaction) *pb.InternalBlock {
-		return &pb.InternalBlock{Version: 1, TxCount: int32(vrt.Int("txcount", 0, 8)), Proposer: []byte("M"), Pubkey: []byte("p0"),
-			PreHash: []byte{7}, Timestamp: 5, MerkleRoot: vrt.Bytes("root", 32), Transactions: txs, Sign: []byte{1}}
+	// the header commits to the first body: its real merkle root and a tx count
+	var root []byte
+	if t := MakeMerkleTree(l1); len(t) > 0 {
+		root = t[len(t)-1]
 	}
-	b1 := hdr(l1)
-	b2 := &pb.InternalBlock{Version: 1, TxCount: b1.TxCount, Proposer: []byte("M"), Pubkey: []byte("p0"),
-		PreHash: []byte{7}, Timestamp: 5, MerkleRoot: b1.MerkleRoot, Transactions: l2, Sign: []byte{1}}
+	txcount := int32(vrt.Int("txcount", 0, 8))
+	b1 := &pb.InternalBlock{Version: 1, TxCount: txcount, Proposer: []byte("M"), Pubkey: []byte("p0"),
+		PreHash: []byte{7}, Timestamp: 5, MerkleRoot: root, Transactions: l1, Sign: []byte{1}}
+	b2 := &pb.InternalBlock{Version: 1, TxCount: txcount, Proposer: []byte("M"), Pubkey: []byte("p0"),
+		PreHash: []byte{7}, Timestamp: 5, MerkleRoot: root, Transactions: l2, Sign: []byte{1}}
 	id, err := MakeBlockID(b1)
 	vrt.Assert(err == nil, "make-id")
 	b1.Blockid, b2.Blockid = id, id
@@ -73,7 +76,7 @@ func verifC08Merkle(N int) {
 	}
 }
 
-func VerifC08MerkleQuick()    { verifC08Merkle(4) }
+func VerifC08MerkleQuick()    { verifC08Merkle(5) }
 func VerifC08MerkleThorough() { verifC08Merkle(6) }
 
 // VerifC08Verify: an arbitrary block passes VerifyBlock only if its id is the
@@ -99,8 +102,25 @@ func verifC08Verify(N int) {
 	lg := &Ledger{xlog: vlog.Nop{}, cryptoClient: stub}
 	b := &pb.InternalBlock{Version: int32(vrt.Int("version", 0, 3)), Nonce: int32(vrt.Int("nonce", -2, 2)), TxCount: int32(vrt.Int("txcount", 0, 8)),
 		Proposer: []byte("M"), Pubkey: pub, PreHash: vrt.Bytes("prehash", 2), Timestamp: vrt.Int("ts", 0, 1<<40),
-		MerkleRoot: vrt.Bytes("root", 32), Transactions: txs, Sign: []byte{1}, Blockid: vrt.Bytes("blockid", 32),
+		Transactions: txs, Sign: []byte{1},
 		CurTerm: vrt.Int("term", 0, 3), CurBlockNum: vrt.Int("blocknum", 0, 3), TargetBits: int32(vrt.Int("bits", -1, 3))}
+	// merkle root and id are computed by the real code and then optionally corrupted, so that
+	// counterexamples do not depend on digest values only the hash model could produce
+	rootOK := vrt.Bool("root-is-root-of-body")
+	idOK := vrt.Bool("id-is-hash-of-header")
+	if t := MakeMerkleTree(txs); len(t) > 0 {
+		b.MerkleRoot = append([]byte{}, t[len(t)-1]...)
+	} else {
+		b.MerkleRoot = []byte{1, 2, 3}
+	}
+	if !rootOK {
+		b.MerkleRoot[0] ^= 1
+	}
+	realID, _ := MakeBlockID(b)
+	b.Blockid = append([]byte{}, realID...)
+	if !idOK {
+		b.Blockid[0] ^= 1
+	}
 	ok, _ := lg.VerifyBlock(b, "")
 	vrt.Cover("accepted", ok)
 	vrt.Cover("rejected", !ok)
@@ -108,9 +128,9 @@ func verifC08Verify(N int) {
 		return
 	}
 	id, _ := MakeBlockID(b)
-	vrt.Assert(string(id) == string(b.Blockid), "accepted-id-is-hash-of-header")
+	vrt.Assert(idOK && string(id) == string(b.Blockid), "accepted-id-is-hash-of-header")
 	tree := MakeMerkleTree(b.Transactions)
-	vrt.Assert(len(tree) > 0 && string(tree[len(tree)-1]) == string(b.MerkleRoot), "accepted-root-is-root-of-body")
+	vrt.Assert(rootOK && len(tree) > 0 && string(tree[len(tree)-1]) == string(b.MerkleRoot), "accepted-root-is-root-of-body")
 	vrt.Assert(int(b.TxCount) == len(b.Transactions), "accepted-txcount-is-body-length")
 	vrt.Assert(parse && keyOK, "accepted-key-parses-and-hashes-to-proposer")
 	vrt.Assert(sigOK && string(verifiedMsg) == string(b.Blockid), "accepted-signature-verified-over-id")
